@@ -24,38 +24,38 @@ Fixpoint parse_one (fuel : nat) (gv : bool) (inp : bytes) {struct fuel} : option
           match simple_of c with
           | Some s => Some (s, r)
           | None =>
-              match c with
-              | "a"%byte =>
-                  match r with
-                  | "{"%byte :: r1 =>
+              if beq c "a"%byte then
+                match r with
+                | c' :: r1 =>
+                    if beq c' "{"%byte then
                       (* dict; if it fails, the array alternative fails too: "{" starts no type *)
                       match parse_one f gv r1 with
                       | Some (k, r2) =>
                           match parse_one f gv r2 with
-                          | Some (v, "}"%byte :: r4) => Some (SDict k v, r4)
+                          | Some (v, c4 :: r4) => if beq c4 "}"%byte then Some (SDict k v, r4) else None
                           | _ => None
                           end
                       | None => None
                       end
-                  | _ => match parse_one f gv r with
-                         | Some (c', r') => Some (SArray c', r')
+                    else match parse_one f gv r with
+                         | Some (c0, r') => Some (SArray c0, r')
                          | None => None
                          end
-                  end
-              | "("%byte =>
-                  match parse_many f gv r with
-                  | (x :: l, ")"%byte :: r') => Some (SStruct (x :: l), r')
-                  | _ => None
-                  end
-              | "m"%byte =>
-                  if gv then match parse_one f gv r with
-                             | Some (c', r') => Some (SMaybe c', r')
-                             | None => None
-                             end
-                  else None
-              | "h"%byte => Some (SFd, r)
-              | _ => None
-              end
+                | [] => None
+                end
+              else if beq c "("%byte then
+                match parse_many f gv r with
+                | (x :: l, c4 :: r') => if beq c4 ")"%byte then Some (SStruct (x :: l), r') else None
+                | _ => None
+                end
+              else if beq c "m"%byte then
+                if gv then match parse_one f gv r with
+                           | Some (c0, r') => Some (SMaybe c0, r')
+                           | None => None
+                           end
+                else None
+              else if beq c "h"%byte then Some (SFd, r)
+              else None
           end
       end
   end
